@@ -241,6 +241,40 @@ class Repo:
             self.units.append(rel)
             if os.environ.get('VERIF_NO_RENAME') != '1':
                 self._normalise(rel)
+            self._type_inlined_bindings(rel)
+
+    def _type_inlined_bindings(self, rel):
+        """The helper inliner binds a non-trivial argument to a fresh temporary `<param>__iN = <argument>`
+        and copies the helper's statements with its locals renamed `<local>__iN`.  When the helper is a
+        cdef function these are C variables of the declared type (a parameter of a C function is a C local
+        of the callee: thread-private, converted at the binding): the declarations are carried over to
+        the caller so that the kernel rules judge them as what they are."""
+        import re
+        tag = re.compile(r'^(.+)__i\d+$')
+        mod = self.modules.get(rel)
+        if mod is None:
+            return
+        for fname, helpers in (self.inlined.get(rel) or {}).items():
+            fn = mod.functions.get(fname)
+            if fn is None or not hasattr(fn, 'cy_locals'):
+                continue
+            cands = {}
+            for h in helpers:
+                hf = mod.functions.get(h)
+                if hf is None or not getattr(hf, 'cy_cdef', False):
+                    continue
+                for p, t in list(hf.cy_argtypes.items()) + list(hf.cy_locals.items()):
+                    cands.setdefault(p, set()).add(t.text)
+                    cands.setdefault((p, t.text), t)
+            for n in ast.walk(fn):
+                if isinstance(n, ast.AnnAssign) and hasattr(n, 'cy_type') and isinstance(n.target, ast.Name):
+                    fn.cy_locals.setdefault(n.target.id, n.cy_type)
+            for n in ast.walk(fn):
+                if isinstance(n, ast.Assign) and len(n.targets) == 1 and isinstance(n.targets[0], ast.Name):
+                    nm = n.targets[0].id
+                    m = tag.match(nm)
+                    if m and nm not in fn.cy_locals and nm not in fn.cy_argtypes and len(cands.get(m.group(1), ())) == 1:
+                        fn.cy_locals[nm] = cands[(m.group(1), next(iter(cands[m.group(1)])))]
 
     def mod(self, rel):
         if rel.endswith('.pyx'):
